@@ -144,6 +144,7 @@ func cmdGenesis(tab *SymTab, rd *os.File, bw *bufio.Writer) {
 		id++
 		g := getm(m, "g")
 		inst.Reset()
+		inst.RestartKeeper() // every genesis case on a keeper of its own: cases must not influence each other
 		gs := inst.GenesisFromAbstract(g)
 		obs := M{"exported": 0, "state": 0, "export": "na"}
 		var verr error
